@@ -11,7 +11,7 @@ def rand_dataset(rng, max_rows=7, max_points=4, max_classes=4, ties=None, groupi
     n_train = rng.randint(1, max_rows)
     n_test = rng.randint(1, max_points)
     n_classes = rng.randint(1, min(max_classes, n_train))
-    pool = rng.choice([[0, 1, 2, 3], [3, 7, 8, 20], [-5, -1, 0, 4], [10, 11, 12, 13]])[:n_classes]
+    pool = rng.choice([[0, 1, 2, 3], [3, 7, 8, 20], [-5, -1, 0, 4], [10, 11, 12, 13], [0, 2, 5, 9]])[:n_classes]
     labels = [rng.choice(pool) for _ in range(n_train)]
     for cl in pool:  # make sure every class occurs when possible
         if cl not in labels and len(labels) >= len(pool):
@@ -22,13 +22,21 @@ def rand_dataset(rng, max_rows=7, max_points=4, max_classes=4, ties=None, groupi
         dvals = [rng.choice([1, 2, 3]) * 0.5 for _ in range(8)]
     else:
         dvals = None
+    # one case in thirty: MANY validation points (on both sides of 256) for few rows; one untied case in six: distances of
+    # timestamp-like magnitude, distinct as binary64 values but closer together than binary32 spacing
+    if rng.random() < 0.033 and max_points >= 3:
+        n_test = rng.choice([257, 300])
+        n_train = min(n_train, 3)
+        labels = labels[:n_train]
+        classes = sorted(set(labels))
+    big = (not ties) and rng.random() < 0.17
     D = []
     for _ in range(n_test):
         if ties:
             D.append([rng.choice(dvals) for _ in range(n_train)])
         else:
             col = rng.sample(range(1, 64), n_train)
-            D.append([c / 8.0 for c in col])
+            D.append([134217728.0 + c if big else c / 8.0 for c in col])
     uden = rng.choice([1, 2, 4])
     U = [[rng.randint(-4, 4) / uden for _ in range(len(classes))] for _ in range(n_test)]   # per point, per class
     nulls = [rng.randint(-4, 4) / uden for _ in range(n_test)]
@@ -43,7 +51,7 @@ def rand_dataset(rng, max_rows=7, max_points=4, max_classes=4, ties=None, groupi
         ids = rng.sample([-3, 0, 1, 2, 5, 9, 14, 100, 7, 8, 21, 33, -40, 64, 1000, 12345], n_train)
         units = sorted(ids)
         owner = [units.index(i) for i in ids]
-        gspec = {"kind": rng.choice(["grouped", "ndarray"]), "ids": ids}
+        gspec = {"kind": rng.choice(["grouped", "ndarray", "edited", "edited"]), "ids": ids}
     elif grouping in ("grouped", "ndarray"):
         k = rng.randint(1, n_train)
         ids_pool = rng.sample([-3, 0, 1, 2, 5, 9, 14, 100, 7, 8, 21, 33, -40, 64, 1000, 12345], k)
@@ -63,6 +71,7 @@ def rand_dataset(rng, max_rows=7, max_points=4, max_classes=4, ties=None, groupi
         gspec = {"kind": "fork", "reps": reps}
     return {"n_train": n_train, "n_test": n_test, "labels": labels, "D": D, "U": U, "nulls": nulls,
             "owner": owner, "n_units": max(owner) + 1, "grouping": gspec, "utility": "table",
+            "refit_history": rng.random() < 0.3,
             "y_test": [rng.choice(classes) for _ in range(n_test)]}
 
 
@@ -168,6 +177,16 @@ def make_provenance(ds):
         return Provenance(data=np.array(g["ids"], dtype=int))
     if g["kind"] == "ndarray":
         return np.array(g["ids"], dtype=int)
+    if g["kind"] == "edited":
+        # the DEFAULT provenance (one unit per row, in row order) whose rows are then reassigned IN PLACE so that row r belongs to
+        # unit owner[r] (a non-identity permutation): a container that started out "simple" and no longer is
+        n = ds["n_train"]
+        p = Provenance(units=n)
+        exprs = [p[i] for i in range(n)]
+        for r in range(n):
+            if ds["owner"][r] != r:
+                p[r] = exprs[ds["owner"][r]]
+        return p
     return Provenance(units=len(g["reps"])).fork(np.array(g["reps"], dtype=int))
 
 
@@ -180,7 +199,15 @@ def run_neighbor(ds, utility=None, distance=None, **kw):
     yv = np.array(ds["y_test"])
     imp = ShapleyImportance(method="neighbor", utility=utility if utility is not None else make_utility(ds),
                             nn_distance=distance if distance is not None else make_distance(ds), **kw)
-    imp.fit(X, y, provenance=make_provenance(ds))
+    prov = make_provenance(ds)
+    if ds.get("refit_history") and len(y) > 1:
+        # a HISTORY on the one object: it is first fitted on the SAME feature array object with other labels (a rotation: the same
+        # class set) and scored, then fitted on the real labels -- the result is the Shapley value of the LAST fit's game
+        y_other = np.roll(y, 1)
+        imp.fit(X, y_other, provenance=prov)
+        imp.score(Xv, yv)
+        y[:] = np.array(ds["labels"])
+    imp.fit(X, y, provenance=prov)
     s = imp.score(Xv, yv)
     s = np.asarray(s, dtype=float)
     assert s.shape == (ds["n_units"],), s.shape
